@@ -65,3 +65,12 @@ func consumerOpenIDs(c *arrow_record.Consumer) []string {
 	}
 	return out
 }
+
+// consumerStates: schema id -> state of its IPC reader ("unopened", "open", "err").
+func consumerStates(c *arrow_record.Consumer) map[string]string {
+	out := map[string]string{}
+	for _, s := range c.VerifStreams() {
+		out[s.SchemaID] = s.State
+	}
+	return out
+}
